@@ -1,6 +1,7 @@
 #include "../../../../common/debug.h"
 #include "../../../../common/debug_messages.h"
 #include "../../core/interpreter.h"
+#include "../../executors/assignments/const_check_helpers.h"
 #include "../../services/debug_service.h"
 #include "core/type_inference.h"
 #include "evaluator/core/evaluator.h"
@@ -2294,6 +2295,14 @@ void VariableManager::process_variable_declaration(const ASTNode *node) {
                         init_node->left->name +
                         "'. Use 'const' qualifier appropriately");
                 }
+            }
+
+            // const T* の値（変数・仮引数・関数の戻り値）で T* を初期化するのは
+            // 禁止: int* q = p; (p は const int*)
+            if (!node->is_function_pointer) {
+                AssignmentHelpers::check_pointer_const_conversion(
+                    *interpreter_, init_node, node->is_pointee_const_qualifier,
+                    "variable '" + node->name + "'");
             }
 
             // Phase 2: 初期化式内に関数呼び出しがある場合、const情報をチェック
